@@ -80,8 +80,48 @@ package upstream
 //@   ensures [C16:not-truncated] eU == nil && !tcU ==> nT == 0 && r == rU && err == nil
 //@   ensures [C16:truncated-retry] eU == nil && tcU ==> nT == 1 && r == rT && err == eT
 
-//@ func NewUpstream(addr string, opt Opt) (u Upstream, err error)
+//@ func newDefaultClientQuicConfig() (c *quic.Config)
 //@   trusted
 //@   modifies nothing
+//@   ensures c != nil && fresh(c)
+
+// NewUpstream: whatever the scheme, the address dialled is getDialAddr(URL host without brackets, the dial_addr
+// override, the scheme's default port), and the TLS server name (when not configured) is the URL host without
+// port - never the dial address.
+//@ func NewUpstream(addr string, opt Opt) (u Upstream, err error)
+//@   props C17
+//@   modifies *
+//@   callsite tryTrimIpv6Brackets: [C17:url-host] arg0 == addrURL.Host
+//@   callsite getDialAddr: [C17:dial-addr-inputs] arg0 == urlAddrHost && arg1 == opt.DialAddr
+//@   callsite getDialAddr: [C17:default-port] arg2 == ((addrURL.Scheme == "" || addrURL.Scheme == "udp" || addrURL.Scheme == "tcp") ? "53" : ((addrURL.Scheme == "tls" || addrURL.Scheme == "quic" || addrURL.Scheme == "doq") ? "853" : (addrURL.Scheme == "http" ? "80" : "443")))
+//@   callsite tryRemovePort: [C17:server-name-from-url-host] arg0 == urlAddrHost
 //@   ensures err == nil ==> u != nil
-//@   ensures err != nil ==> u == nil
+
+// The dial closures NewUpstream hands to the transports: each dials exactly the computed dial address (the UDP
+// upstream's TCP fallback included: same captured variable, so the same server), on "unix" for '@name' else "tcp".
+//@ closure NewUpstream$2
+//@   props C17 C16
+//@   requires dialer != nil
+//@   modifies *
+//@   callsite DialContext: [C17:udp-dials-dial-addr] arg2 == "udp" && arg3 == dialAddr
+//@ closure NewUpstream$3
+//@   props C16 C17
+//@   requires dialer != nil
+//@   modifies *
+//@   callsite DialContext: [C16:tcp-fallback-same-server] arg2 == "tcp" && arg3 == dialAddr
+//@ closure NewUpstream$4
+//@   props C17
+//@   requires dialer != nil
+//@   modifies *
+//@   callsite DialContext: [C17:tcp-dials-dial-addr] arg3 == dialAddr && arg2 == ((len(dialAddr) >= 1 && dialAddr[0] == '@') ? "unix" : "tcp")
+//@ closure NewUpstream$5
+//@   props C17
+//@   requires dialer != nil
+//@   modifies *
+//@   callsite DialContext: [C17:tls-dials-dial-addr] arg3 == dialAddr && arg2 == ((len(dialAddr) >= 1 && dialAddr[0] == '@') ? "unix" : "tcp")
+//@   callsite Client: [C17:handshake-with-configured-tls] arg1 == tlsConfig
+//@ closure NewUpstream$7
+//@   props C17
+//@   requires dialer != nil
+//@   modifies *
+//@   callsite DialContext: [C17:https-dials-dial-addr] arg3 == dialAddr && arg2 == ((len(dialAddr) >= 1 && dialAddr[0] == '@') ? "unix" : "tcp")
